@@ -569,7 +569,28 @@ def add_writers(reg):
         reg.method_bindings[(c, "_abs_path")] = lambda cx, o, p: SStr(abs_path_term(o, p.t if isinstance(p, SStr) else z3.StringVal(p)))
     reg.method_bindings[("IH5Group", "_node_seq")] = lambda cx, o, p: NodeSeq(p.t)
     reg.attr_bindings[("IH5Group", "_record")] = lambda cx, o: OpaqueVal("record")
-    specs = [GroupDelitem(), AttrDelitem(), AttrSetitem(), GroupCreateGroup(), IsDelMark(), NodeIsDelMark()]
+    c = "IH5GroupForCreate"
+    reg.set_class_home(c, "ih5/overlay.py", "IH5Group")
+    reg.attr_bindings[(c, "_files")] = lambda cx, o: o.wfiles
+    reg.attr_bindings[(c, "_last_idx")] = lambda cx, o: SInt(o.nfiles - 1)
+    reg.attr_bindings[(c, "_record")] = lambda cx, o: OpaqueVal("record")
+    reg.method_bindings[(c, "_guard_open")] = lambda cx, o: (None if cx.decide(o.is_open) else cx.py_raise("KeyError", "Record is not open or accessible!"))
+    reg.method_bindings[(c, "_guard_read_only")] = lambda cx, o: (cx.py_raise("ValueError", "Create a patch") if cx.decide(o.read_only) else None)
+    reg.method_bindings[(c, "_guard_key")] = lambda cx, o, k: (None if cx.decide(o.key_ok(k.t)) else cx.py_raise("ValueError", "invalid key"))
+    reg.method_bindings[(c, "_guard_value")] = _guard_value_binding
+    reg.method_bindings[(c, "_abs_path")] = lambda cx, o, p: SStr(abs_path_term(o, p.t if isinstance(p, SStr) else z3.StringVal(p)))
+    reg.method_bindings[(c, "_find")] = lambda cx, o, p: SMaybe(z3.Not(VISIBLE(p.t)), SInt(FOUND_IDX(p.t)))
+    reg.method_bindings[(c, "_get_child")] = lambda cx, o, p, i: ExistingNode()
+    reg.method_bindings[(c, "_get_child_raw")] = lambda cx, o, p, i: WNode(p.t if isinstance(p, SStr) else z3.StringVal(p))
+
+    def create_virtual(cx, o, p):
+        pt = p.t if isinstance(p, SStr) else z3.StringVal(p)
+        cx.effect("create-virtual", pt)
+        o.wfiles.newest.created.append(pt)
+        return True
+
+    reg.method_bindings[(c, "_create_virtual")] = create_virtual
+    specs = [GroupDelitem(), AttrDelitem(), AttrSetitem(), GroupCreateGroup(), IsDelMark(), NodeIsDelMark(), GroupCreateDataset()]
     for s in specs:
         reg.add(s)
     return specs
@@ -923,6 +944,95 @@ class GroupClass(SVal):
 
     def py_call(self, cx, rec, path=None, cidx=None):
         return CreatedGroup(path.t, None)
+
+
+# ------------------------------------------------------------------------------------------------
+# IH5Group.create_dataset (and thereby group[path] = value): C01, C09, C17
+
+H5_CREATE_FAILS = z3.Bool("h5py_create_dataset_rejects_the_value")  # value without HDF5 equivalent, shape/data mismatch, bad filter options
+
+
+class ExistingNode(SVal):
+    def py_isinstance(self, cx, c):
+        names = c if isinstance(c, tuple) else (c,)
+        return any(n in ("IH5Group", "IH5Dataset") for n in names)
+
+
+class GroupCreateDataset(Writer):
+    qual = "IH5Group.create_dataset"
+    props = ("C01", "C09", "C17")
+
+    def init(self):
+        Writer.init(self)
+        self.bindings["_node_is_del_mark"] = lambda cx, node: SBool(ISDELP(node.path))
+        self.bindings["IH5Group"] = SClass("IH5Group")
+        self.bindings["IH5Dataset"] = DatasetCtor()
+        self.bindings["DEL_VALUE"] = DelMark()
+
+    def setup(self, cx):
+        n = wnode_obj(cx)
+        n.cls = "IH5GroupForCreate"
+        kw = {} if cx.choose(2) == 0 else {"compression": OpaqueVal("gzip")}
+        return A(self=n, path=SStr(z3.String("path")), data=OpaqueVal("data"), __kwargs__=kw, kw=kw)
+
+    def raises(self, cx, a):
+        n = a.self
+        k = a.path.t
+        p = abs_path_term(n, k)
+        return {"KeyError": z3.Not(n.is_open), "ValueError": z3.Or(n.read_only, z3.Not(n.key_ok(k)), VISIBLE(p)), "TypeError": z3.And(z3.Not(self.guard_conds(cx, a, k)), z3.Not(VISIBLE(p)), H5_CREATE_FAILS)}
+
+    raises_exact = True
+
+    def on_raise(self, cx, a, exc):
+        n = a.self
+        p = abs_path_term(n, a.path.t)
+        fx = cx.fx
+        kinds = [e[0] for e in fx]
+        if exc.cls != "TypeError":
+            return [("rejected-without-effect", z3.BoolVal(not fx), "an operation refused by a guard leaves the record unchanged")]
+        had_marker = z3.And(HASP(p), ISDELP(p))
+        restored = kinds == ["h5del", "h5set"] and isinstance(fx[1][2], DelMark)
+        return [
+            ("deleted-stays-deleted-when-creation-fails", z3.Implies(had_marker, z3.And(z3.BoolVal(restored), (fx[0][1] == p) if restored else False, (fx[1][1] == p) if restored else False)), "if the path carried a deletion marker and h5py refuses the new dataset, the marker is back afterwards: data deleted earlier in this patch does not reappear"),
+            ("no-dataset-left", z3.BoolVal("h5mkds" not in kinds), "nothing is stored at the path"),
+        ]
+
+    def ensures(self, cx, a, res):
+        n = a.self
+        p = abs_path_term(n, a.path.t)
+        fx = cx.fx
+        kinds = [e[0] for e in fx]
+        mk = [e for e in fx if e[0] == "h5mkds"]
+        had_marker = z3.And(HASP(p), ISDELP(p))
+        out = [("only-when-allowed", z3.And(z3.Not(self.guard_conds(cx, a, a.path.t)), z3.Not(VISIBLE(p)), z3.Not(H5_CREATE_FAILS)), "create_dataset succeeds exactly on a writable record at a path that shows nothing, with a storable value")]
+        out.append(("dataset-stored-once-at-the-path-with-the-given-data", z3.And(z3.BoolVal(len(mk) == 1 and kinds[-1] == "h5mkds" and mk[0][2] is a.data and mk[0][3] == tuple(sorted(a.kw))), (mk[0][1] == p) if mk else False), "the value is stored unmodified at the absolute path in the newest container, last of all"))
+        out.append(("marker-removed-iff-present", z3.BoolVal(kinds[:1] == ["h5del"] and "create-virtual" not in kinds) == had_marker, "a deletion marker at the path is replaced by the dataset"))
+        out.append(("carriers-only-when-path-absent-from-newest", z3.BoolVal("create-virtual" in kinds) == z3.Not(HASP(p)), "carrier groups are created only if the newest container has nothing at the path"))
+        out.append(("returns-the-new-dataset", z3.BoolVal(isinstance(res, CreatedDataset)) if not isinstance(res, CreatedDataset) else (res.path_t == p), "the new dataset node is returned"))
+        return out
+
+
+class CreatedDataset(SVal):
+    def __init__(self, path_t):
+        self.path_t = path_t
+
+
+class DatasetCtor(SVal):
+    name = "IH5Dataset"
+
+    def py_call(self, cx, rec, path=None, cidx=None):
+        return CreatedDataset(path.t)
+
+
+def _h5_create_dataset(self, cx, p, shape=None, dtype=None, data=None, **kw):
+    pt = p.t if isinstance(p, SStr) else z3.StringVal(p)
+    if cx.decide(H5_CREATE_FAILS):
+        cx.py_raise("TypeError", "no native HDF5 equivalent")
+    cx.effect("h5mkds", pt, data, tuple(sorted(kw)))
+    self.created.append(pt)
+
+
+NewestFile.meth_create_dataset = _h5_create_dataset
 
 
 # ------------------------------------------------------------------------------------------------
